@@ -85,3 +85,22 @@ Definition fixed_nonzero6 (a len : N) : bool :=
   let diff := (4 - len mod 4) mod 4 in
   forallb (fun sub => nonzero_groups (firstn (N.to_nat ((len + diff) / 16)) (groups6 sub)))
           (subnets 128 a len diff).
+
+(* ------------------------------------------------------------ the rendered query, read with the semantics
+   the backend declares: the values of a value list are literals unless the backend allows wildcards in
+   lists; the values of equality atoms joined by OR are wildcard patterns *)
+Inductive rquery := RIn (vals : list str) | ROr (vals : list str).
+Definition value_matches (wild : bool) (v text : str) : bool :=
+  if wild then pat_matches v text else str_eqb v text.
+Definition rquery_matches (allow_wild : bool) (q : rquery) (text : str) : bool :=
+  match q with
+  | RIn vs => existsb (fun v => value_matches allow_wild v text) vs
+  | ROr vs => existsb (fun v => pat_matches v text) vs
+  end.
+(* the integer ranges its values denote (IPv4): a literal containing '*' is no address text at all *)
+Definition rquery_exact4 (allow_wild : bool) (base len : N) (q : rquery) : bool :=
+  match q with
+  | ROr vs => exact_cover4 base len vs
+  | RIn vs => if allow_wild then exact_cover4 base len vs
+              else forallb (fun v => negb (mem c_star v)) vs && exact_cover4 base len vs
+  end.
